@@ -88,6 +88,7 @@ class AUC(Metric[torch.Tensor]):
         if y.ndim == 1:
             y = y.unsqueeze(0)
 
+        x, y = x.detach(), y.detach()
         self.x.append(x)
         self.y.append(y)
 
